@@ -22,9 +22,11 @@ import (
 // watched directories (inotify).
 //
 // states: ok | missing | dir (the source is a directory) | dirfull (a non-empty directory) |
-//         blocked (the destination name is occupied by a non-empty directory) |
-//         occupied (the destination already holds a longer regular file of that name)
-//         cksum (the name is listed ONLY in the Checksums-Sha1 / Checksums-Sha256 sections, not in Files)
+//
+//	blocked (the destination name is occupied by a non-empty directory) |
+//	occupied (the destination already holds a longer regular file of that name)
+//	cksum (the name is listed ONLY in the Checksums-Sha1 / Checksums-Sha256 sections, not in Files)
+//
 // Every other file is listed in Files and in both checksum sections, as in a real .dsc / .changes.
 func init() {
 	ops["upload"] = func(a []string) string {
@@ -93,7 +95,19 @@ func init() {
 			text += "Checksums-Sha1:\n" + sha1s.String() + "Checksums-Sha256:\n" + sha256s.String()
 		}
 		ctlpath := filepath.Join(src, ctlname)
-		ioutil.WriteFile(ctlpath, []byte(text), 0644)
+		if ctlstate == "symlink" {
+			// the control file in S is a symbolic link to a file that lives elsewhere (outside/), next to decoys carrying the
+			// names of the referenced files: "the control file's own directory" is S, where the handle was opened
+			ioutil.WriteFile(filepath.Join(out, ctlname), []byte(text), 0644)
+			for i := 5; i+2 < len(a); i += 3 {
+				if a[i+1] != "cksum" && !strings.ContainsAny(a[i], "/") && a[i] != "" && a[i] != "." && a[i] != ".." {
+					ioutil.WriteFile(filepath.Join(out, a[i]), []byte("decoy"), 0644)
+				}
+			}
+			os.Symlink(filepath.Join(out, ctlname), ctlpath)
+		} else {
+			ioutil.WriteFile(ctlpath, []byte(text), 0644)
+		}
 		var doOp func() error
 		var doOp2 func() error
 		var filename func() string
